@@ -4,6 +4,7 @@ import (
 	"errors"
 	"fmt"
 	"math/rand/v2"
+	"strings"
 
 	astits "github.com/asticode/go-astits"
 
@@ -399,7 +400,10 @@ func parserCases(c *mon.Ctx, idx int64, r *rand.Rand, s *gen.Stream, m *gen.Mode
 		}
 		return nil, false, nil
 	}
+	lt := &LogTap{}
+	cfg.Logger = lt
 	run = RunDemux(s.Bytes, cfg)
+	cfg.Logger = nil
 	surfaced := false
 	for _, e := range run.Errors() {
 		if errors.Is(e, sentinel) {
@@ -430,6 +434,12 @@ func parserCases(c *mon.Ctx, idx int64, r *rand.Rand, s *gen.Stream, m *gen.Mode
 		c.Count("parser_errors_surfaced")
 	case drain:
 		c.Count("parser_errors_in_end_of_stream_drain")
+		for _, l := range lt.Lines {
+			if strings.Contains(l, sentinel.Error()) {
+				c.Count("drain_errors_seen_by_the_logger_tap") // observation only: where the error went
+				break
+			}
+		}
 	default:
 		c.Violate("C19/parser/error-not-surfaced", "streams", idx, fmt.Sprintf("parser failed on group %d of %d (streaming path), no returned error wraps it", failAt, len(s.Units)), data)
 	}
